@@ -197,6 +197,13 @@ def par_live(ctx, obs, prefixes: Sequence[str], rule='PAR-live') -> int:
         if f.cls is None and f.parent is None and f.name.startswith('_') and modname in frozen_functions() \
                 and f.name not in frozen_functions()[modname]:
             continue
+        if f.parent is not None:
+            # a nested function (closure, the inner functions of a decorator): what its parameters are for is its enclosing
+            # function's business; pinned nested functions are covered through the functions that call them
+            root = f.parent.split('.<locals>')[0]
+            rmod, rname = root.rsplit('.', 1)
+            if rmod in frozen_functions() and rname not in frozen_functions()[rmod]:
+                continue
         for p in f.params:
             if p in ('self', 'cls') or p.startswith('_'):
                 continue
@@ -300,6 +307,7 @@ def run(ctx, obs, prop: str):
     obs.analysed['sweep_loop_state'] = loop_state(ctx, obs, pre)
     obs.analysed['sweep_loop_carry'] = loop_carry(ctx, obs, pre)
     obs.analysed['sweep_loop_shadow'] = loop_shadow(ctx, obs, pre)
+    obs.analysed['sweep_stale_defaults'] = stale_default(ctx, obs, pre)
     obs.analysed['sweep_lossy_guards'] = lossy_guard(ctx, obs, pre + EXTRA_SELECT_SCOPE.get(prop, []))
     obs.analysed['sweep_triangular_solves'] = triangular_solve(ctx, obs, pre)
     # C15: a pair without a valid product is NaN by contract, so the values combined after the compiled kernel may be NaN and a
@@ -434,7 +442,15 @@ def dtype_inherit(ctx, obs, prefixes: Sequence[str], rule='DTYPE') -> int:
                     (rr.func.value if isinstance(rr.func, ast.Attribute) and not (isinstance(rr.func.value, ast.Name) and rr.func.value.id in ('np', 'numpy'))
                      else (rr.args[0] if rr.args else None))
                 return inner is not None and selection_of(inner, root, depth)
-            return False
+            if isinstance(rr, (ast.BinOp, ast.UnaryOp, ast.Compare, ast.BoolOp, ast.JoinedStr)):
+                return False          # arithmetic / logic: a computed value
+            if isinstance(rr, ast.Call):
+                lf = _leafname(rr.func)
+                if lf in _FLOAT_FUNCS or lf in _INHERIT_FUNCS or lf in ('len', 'count_nonzero', 'arange', 'float', 'int', 'round', 'nanmean',
+                                                                       'nansum', 'argmax', 'argmin', 'argsort'):
+                    return False      # a computing function
+                return None           # a call the sweep knows nothing about (a helper, an itertools adaptor): origin not visible
+            return None
         rdep = ctx.dep.result(q)
 
         def defs_of(name_node):
@@ -1358,3 +1374,124 @@ def lossy_guard(ctx, obs, prefixes: Sequence[str], rule='LOSSY-GUARD') -> int:
                         f'argument away: everything the projection does not show (off-diagonal entries, order, individual values) is lost '
                         f'with it', where(prog, f, st))
     return n
+
+
+# --------------------------------------------------------------------------------------------------- STALE-DEFAULT
+def stale_default(ctx, obs, prefixes: Sequence[str], rule='STALE-DEFAULT') -> int:
+    """A parameter whose default is resolved inside the function (`if p is None: p = <default>`, possibly under further conditions)
+    has two versions: the caller's value and the resolved one.  The arguments of ONE call must all be computed from the same
+    version: a flag computed from the caller's value (`use = 0 if p is None else 1`) next to data computed from the resolved value
+    (`codes = f(ds[p])`) tells the callee "no p" while handing it the p that was filled in.  Reaching definitions of the parameter
+    are collected for every argument through the local definitions it was computed from."""
+    prog = ctx.prog
+    n = 0
+    for q, f in sorted(prog.functions.items()):
+        if not _in_scope(q, prefixes) or f.parent is not None:
+            continue
+        r = ctx.dep.result(q)
+        if r is None:
+            continue
+        # parameters that are re-assigned with a constant under a test on themselves
+        resolved = set()
+        for st in ast.walk(f.node):
+            if isinstance(st, ast.If):
+                for s2 in ast.walk(st):
+                    if isinstance(s2, ast.Assign) and len(s2.targets) == 1 and isinstance(s2.targets[0], ast.Name) and s2.targets[0].id in f.params \
+                            and isinstance(s2.value, ast.Constant) and s2.value.value is not None:
+                        resolved.add(s2.targets[0].id)
+        if not resolved:
+            continue
+
+        pdefs = {p: {i for i, d in r.defs.items() if d.kind == 'param' and d.var == p} for p in resolved}
+
+        def none_test_of(t):
+            """(param, Name node) when t is `p is None` / `p is not None` for a resolved parameter"""
+            if isinstance(t, ast.Compare) and len(t.ops) == 1 and isinstance(t.ops[0], (ast.Is, ast.IsNot)) and isinstance(t.left, ast.Name) \
+                    and t.left.id in resolved and isinstance(t.comparators[0], ast.Constant) and t.comparators[0].value is None:
+                return t.left.id, t.left
+            return None
+
+        def flag_of(arg):
+            """arg is a 0/1 / bool flag that records whether the CALLER's p was None: every reaching definition is a constant chosen
+            by a None-test of p that read the parameter before any re-assignment -> p"""
+            if not isinstance(arg, ast.Name):
+                return None
+            ids = r.load_defs.get(id(arg))
+            if not ids:
+                return None
+            ps = set()
+            for i in ids:
+                d = r.defs[i]
+                if d.kind != 'assign' or d.rhs is None or not isinstance(d.node, ast.Assign):
+                    return None
+                tests = []
+                if isinstance(d.rhs, ast.IfExp) and isinstance(d.rhs.body, ast.Constant) and isinstance(d.rhs.orelse, ast.Constant):
+                    tests = [d.rhs.test]
+                elif isinstance(d.rhs, ast.Constant) and isinstance(d.rhs.value, (int, bool)):
+                    tests = _guards_of(f.node, d.node)[-1:]
+                hit = None
+                for t in tests:
+                    nt = none_test_of(t)
+                    if nt is not None and r.load_defs.get(id(nt[1]), frozenset()) <= pdefs[nt[0]]:
+                        hit = nt[0]
+                if hit is None:
+                    return None
+                ps.add(hit)
+            return next(iter(ps)) if len(ps) == 1 else None
+
+        def reads_resolved(e, p, depth=0, seen=None):
+            """some value used to compute e read p AFTER it was re-assigned"""
+            seen = seen if seen is not None else set()
+            for x in ast.walk(e):
+                if not (isinstance(x, ast.Name) and isinstance(x.ctx, ast.Load)):
+                    continue
+                ids = r.load_defs.get(id(x))
+                if ids is None:
+                    continue
+                if x.id == p:
+                    if not (ids <= pdefs[p]):
+                        return True
+                elif depth < 5:
+                    for i in ids:
+                        d = r.defs[i]
+                        rhs = d.rhs if d.rhs is not None else (d.node.value if isinstance(d.node, ast.Assign) else None)
+                        if i in seen or d.kind != 'assign' or rhs is None:
+                            continue
+                        seen.add(i)
+                        if reads_resolved(rhs, p, depth + 1, seen):
+                            return True
+            return False
+        for c in ast.walk(f.node):
+            if not (isinstance(c, ast.Call) and len(c.args) + len(c.keywords) >= 2):
+                continue
+            args = [a for a in list(c.args) + [k.value for k in c.keywords] if not isinstance(a, ast.Starred)]
+            flags = [(a, flag_of(a)) for a in args]
+            for a, p in flags:
+                if p is None:
+                    continue
+                n += 1
+                con = f'the flag `{norm(a)}` handed to `{norm(c.func)}(..)` says whether the `{p}` that the other arguments use is set'
+                later = [b for b in args if b is not a and reads_resolved(b, p)]
+                if later:
+                    obs.bad(rule, q, con, f'`{norm(a)}` records whether the CALLER passed `{p}` (the None-test runs before the default is filled '
+                            f'in), while `{norm(later[0])[:40]}` is computed from `{p}` after its default was resolved: with `{p}` left at None '
+                            f'the callee is told "no {p}" and given data for the default one', where(prog, f, c))
+                else:
+                    obs.ok(rule, q, con, '', where(prog, f, c))
+    return n
+
+
+def _guards_of(root, stmt):
+    """tests of the if statements that enclose stmt"""
+    out = []
+
+    def rec(n, acc):
+        if n is stmt:
+            out.extend(acc)
+            return True
+        for ch in ast.iter_child_nodes(n):
+            if rec(ch, acc + ([n.test] if isinstance(n, ast.If) else [])):
+                return True
+        return False
+    rec(root, [])
+    return out
